@@ -18,6 +18,7 @@ namespace sim
       SET_COV = 5,    // coverage (state_control)
       SET_BUF1 = 7,   // sim_buf< 1 >
       SET_BUF64 = 8,  // sim_buf< 64 >
+      SET_TREE_UW = 9,  // parse_tree control over a control with unwind()  (SET_TREE: without)
       // 20 .. 29: stock input classes of the I/O jobs, see io.hpp
    };
 
@@ -34,6 +35,7 @@ namespace sim
       // environment of stream configurations
       std::uint32_t maximum = 64;
       std::vector< std::uint16_t > reads;
+      std::uint32_t short_by = 0;  // I/O jobs: the stream ends this many bytes before the size it reports
    };
 
    struct TreeNode
@@ -78,6 +80,7 @@ namespace sim
    RunResult run_set5( const Case& c );
    RunResult run_set7( const Case& c );
    RunResult run_set8( const Case& c );
+   RunResult run_set9( const Case& c );
    RunResult run_case( SetId set, const Case& c );
    unsigned set_capabilities( SetId set );  // CAP_* mask
 
